@@ -1,7 +1,7 @@
 """C20 - separation helper functions close the material balance and meet their targets."""
 import random
 
-from harness import par, tlc
+from harness import core, par, tlc
 from harness.drivers import separations as dsp
 
 ASSUME = [
@@ -11,6 +11,8 @@ ASSUME = [
     'package Water / Ethanol / Octanol / Glucose (solid) / O2 (gas) / NaCl (solid); the equilibrium wrappers are judged on the balance only (C03 / C04 / C15 '
     'cover the equilibrium itself); calls on which the library reports infeasibility are accepted as reported',
 ]
+
+RULE = ' Counting: evaluations = every executed call; distinct_nontrivial = distinct (operation, arguments, state before the call) among the calls that were judged, i.e. in contract, not state shaping and (where the property says so) returned normally.'
 
 
 def key_of(step, clause):
@@ -46,6 +48,7 @@ def run(ctx):
     defs, cfgc = dsp.tla_constants()
     stats = dict(ok=0, ops={})
     todo, n_traces = traces, 0
+    cases = []
     while todo:
         v = tlc.validate_traces('Separations', defs, cfgc, todo, procs=16)
         n_traces += len(todo)
@@ -53,6 +56,9 @@ def run(ctx):
         for t in todo:
             x = v[t['id']]
             n_ok = x['l'] - 1 if x['code'] in ('rejected', 'ooc') else len(t['steps'])
+            for i, s in enumerate(t['steps'], 1):
+                pre_ = t['steps'][i - 2]['post'] if i > 1 else t['init']
+                cases.append((i <= n_ok and i not in set(x['stepooc']) and s['op'] != 'feed', [s['op'], s['a'], pre_]))
             for s in t['steps'][:n_ok]:
                 if s['op'] != 'feed':
                     stats['ok'] += 1
@@ -72,6 +78,8 @@ def run(ctx):
                     'all small tables: inlets before = outlets after. Real helpers: histories of 10 calls over 5 streams + one two-phase stream: mix_and_split, '
                     'phase_split, adjust_moisture_content (strict / lenient, sufficient / insufficient water), partition (K over six decades, forced top / bottom '
                     'chemicals, outlets with previous content), vle / lle wrappers (with multi-stream copy, efficiency), chemical_splits, material_balance')
+    cov.update(core.case_stats(cases))
+    cov['rule'] += RULE
     return 'exploration', cov, ASSUME
 
 
